@@ -17,17 +17,17 @@ import (
 
 type event map[string]any
 
-func (c *cluster) postAll() []gotProj {
-	out := make([]gotProj, len(c.nodes))
+func (c *cluster) postAll() []nodeObs {
+	out := make([]nodeObs, len(c.nodes))
 	for i, nd := range c.nodes {
 		out[i] = c.observe(nd)
 	}
 	return out
 }
 
-func recordOne(t *testing.T, w *abs.NDJSONWriter, nn, ni int, pr params, maxClock, steps int, gates, deletes bool, seed int64) (fatal string) {
+func recordOne(t *testing.T, w *abs.NDJSONWriter, nn, ni, nk int, pr params, maxClock, steps int, gates, deletes bool, seed int64) (fatal string) {
 	synctest.Test(t, func(t *testing.T) {
-		c := newCluster(t, nn, ni, pr, seed)
+		c := newCluster(t, nn, ni, nk, pr, seed)
 		defer func() {
 			for _, nd := range c.nodes {
 				if nd != nil {
@@ -46,7 +46,7 @@ func recordOne(t *testing.T, w *abs.NDJSONWriter, nn, ni int, pr params, maxCloc
 		var pkeys []string             // packet keys in order of first appearance
 		pmsg := map[string]msg{}       // key -> message
 		written := map[string]string{} // "i@ts" -> live state written (workload proviso OneContentPerSecond)
-		states := []string{"ACTIVE", "LEAVING"}
+		states := []string{"ACTIVE", "LEAVING", "PENDING"}
 		kinds := []string{"truncated", "badvalue", "badcodec", "emptykey"}
 		_ = w.Write(event{"a": "Reset"})
 		emitted := 0
@@ -57,15 +57,17 @@ func recordOne(t *testing.T, w *abs.NDJSONWriter, nn, ni int, pr params, maxCloc
 			_ = w.Write(e)
 		}
 		withMsg := func(e event, m msg) event {
-			e["p"], e["pd"], e["pu"] = m.Chg, m.Del, m.Upd
+			e["key"], e["p"], e["pd"], e["pu"] = m.Key, m.Chg, m.Del, m.Upd
 			return e
 		}
 		for s := 0; emitted < steps && s < 20*steps; s++ {
 			r := c.rnd.Intn(33)
 			n := 1 + c.rnd.Intn(nn)
 			nd := c.nodes[n-1]
+			kk := 1 + c.rnd.Intn(nk)
+			u := nd.units[kk-1]
 			now := int(time.Now().Unix() - c.epoch)
-			closed, waiting := nd.g.state()
+			closed, waiting := u.g.state()
 			switch {
 			case r < 2:
 				if now >= maxClock {
@@ -79,9 +81,9 @@ func recordOne(t *testing.T, w *abs.NDJSONWriter, nn, ni int, pr params, maxCloc
 				if f.Op == "set" {
 					f.S = states[c.rnd.Intn(len(states))]
 				}
-				view := c.observe(nd).Read
+				view := c.observe(nd).Keys[kk-1].Read
 				cur := view[f.I-1]
-				wkey := fmt.Sprintf("%d@%d", f.I, now)
+				wkey := fmt.Sprintf("k%d:%d@%d", kk, f.I, now)
 				newSt := ""
 				switch f.Op {
 				case "hb":
@@ -97,11 +99,11 @@ func recordOne(t *testing.T, w *abs.NDJSONWriter, nn, ni int, pr params, maxCloc
 				if prev, ok := written[wkey]; ok && newSt != "" && prev != newSt {
 					continue // would give the entry a second live content within the same second
 				}
-				res := c.cas(nd, f)
+				res := c.cas(nd, kk, f)
 				if res == "ok" && newSt != "" {
 					written[wkey] = newSt
 				}
-				emit(event{"a": "Cas", "n": n, "f": f, "res": res})
+				emit(event{"a": "Cas", "n": n, "key": kk, "f": f, "res": res})
 			case r < 10:
 				ql, qg := nd.kv.NumQueuedForVerif()
 				if ql+qg == 0 {
@@ -112,7 +114,7 @@ func recordOne(t *testing.T, w *abs.NDJSONWriter, nn, ni int, pr params, maxCloc
 				for _, raw := range pk {
 					m, bad := c.packetMsg(raw)
 					if bad != "" {
-						out = append(out, msg{Chg: desc{{Ts: -99, St: bad}}})
+						out = append(out, msg{Key: 1, Chg: desc{{Ts: -99, St: bad}}})
 						continue
 					}
 					out = append(out, m)
@@ -152,15 +154,15 @@ func recordOne(t *testing.T, w *abs.NDJSONWriter, nn, ni int, pr params, maxCloc
 				if a > b {
 					a, b = b, a
 				}
-				kk := "-"
+				jk := "-"
 				if r == 20 {
-					kk = "junk"
+					jk = "junk"
 				}
-				c.pushPull(c.nodes[a-1], c.nodes[b-1], kk == "junk")
+				c.pushPull(c.nodes[a-1], c.nodes[b-1], jk == "junk")
 				synctest.Wait()
-				emit(event{"a": "PushPull", "n": a, "m": b, "k": kk})
+				emit(event{"a": "PushPull", "n": a, "m": b, "k": jk})
 			case r < 22:
-				wt := nd.w
+				wt := u.w
 				wt.mu.Lock()
 				ok := !wt.armed && !wt.held
 				if ok {
@@ -170,18 +172,18 @@ func recordOne(t *testing.T, w *abs.NDJSONWriter, nn, ni int, pr params, maxCloc
 				if !ok {
 					continue
 				}
-				emit(event{"a": "Arm", "n": n})
+				emit(event{"a": "Arm", "n": n, "key": kk})
 			case r < 24:
-				wt := nd.w
+				wt := u.w
 				wt.mu.Lock()
 				held := wt.held
 				wt.mu.Unlock()
 				if !held {
 					continue
 				}
-				nd.release()
+				u.release()
 				synctest.Wait()
-				emit(event{"a": "Release", "n": n})
+				emit(event{"a": "Release", "n": n, "key": kk})
 			case r < 25:
 				nd.stop()
 				c.nodes[n-1] = nil
@@ -197,33 +199,39 @@ func recordOne(t *testing.T, w *abs.NDJSONWriter, nn, ni int, pr params, maxCloc
 					continue
 				}
 				if !closed {
-					nd.g.setClosed(true)
-					emit(event{"a": "GateClose", "n": n})
+					u.g.setClosed(true)
+					emit(event{"a": "GateClose", "n": n, "key": kk})
 				} else if waiting == "idle" {
-					nd.g.setClosed(false)
-					emit(event{"a": "GateOpen", "n": n})
+					u.g.setClosed(false)
+					emit(event{"a": "GateOpen", "n": n, "key": kk})
 				}
 			case r < 30:
 				if waiting == "idle" {
 					continue
 				}
-				nd.g.oneStep()
+				u.g.oneStep()
 				synctest.Wait()
-				emit(event{"a": "Work", "n": n})
+				emit(event{"a": "Work", "n": n, "key": kk})
 			case r < 31:
 				if !deletes {
 					continue
 				}
 				var err error
-				nd.g.harness(func() { err = nd.cli.Delete(context.Background(), key) })
+				nd.harness(func() { err = u.cli.Delete(context.Background(), keyName(kk)) })
 				synctest.Wait()
 				res := "done"
 				if err != nil {
 					res = "error: " + err.Error()
 				}
-				emit(event{"a": "Delete", "n": n, "res": res})
+				emit(event{"a": "Delete", "n": n, "key": kk, "res": res})
 			default:
-				if !deletes || waiting != "idle" {
+				idle := true
+				for _, x := range nd.units {
+					if _, wq := x.g.state(); wq != "idle" {
+						idle = false
+					}
+				}
+				if !deletes || !idle {
 					continue
 				}
 				nd.kv.CleanupObsoleteEntriesForVerif()
@@ -257,7 +265,7 @@ func TestRecord(t *testing.T) {
 			}()
 			// every third trace exercises key deletion, the others the worker gates
 			deletes := k%3 == 2
-			if f := recordOne(t, w, abs.EnvInt("VERIF_N", 4), abs.EnvInt("VERIF_NI", 3), pr, abs.EnvInt("VERIF_MAXCLOCK", 12),
+			if f := recordOne(t, w, abs.EnvInt("VERIF_N", 4), abs.EnvInt("VERIF_NI", 3), abs.EnvInt("VERIF_NK", 2), pr, abs.EnvInt("VERIF_MAXCLOCK", 12),
 				steps, true, deletes, abs.Seed()*7919+int64(k)); f != "" {
 				res.Fatal = f
 			}
